@@ -261,7 +261,8 @@ func returnOrigins(fs []*ssa.Function) map[*ssa.Function]origin {
 			var o origin
 			for _, r := range returnsOf(f) {
 				for _, v := range r.Results {
-					if hasRefs(v.Type()) {
+					// an error result is not a way to reach the data structures whose sharing is traced
+					if hasRefs(v.Type()) && v.Type().String() != "error" {
 						o |= oa.of(v)
 					}
 				}
